@@ -87,6 +87,7 @@ def check_acceptance(pop_costs, x_costs, pick):
 # ------------------------------------------------------------------ full runs
 CONSTRAINTS = {
     None: None,
+    "bigcosts": None,
     "always": lambda x: [x[0] - 10.0],            # every design satisfies the constraint
     "half": lambda x: [x[0] - 0.5],               # satisfied iff x0 < 0.5
 }
@@ -141,8 +142,11 @@ def run_body_factory(name, N, G, nparams, ncosts, seed, fail_script=None, allow_
             return r
         if name == "EpsMOEA":
             TournamentSelector.pop_acceptance = watched_acc
+        fbig = None
+        if constraint == "bigcosts":      # objectives of magnitude 1e6 whose differences are far below 1e-9 relative
+            fbig = (lambda v: [1e6 + 5e-4 * sum(v)] + ([2e6 - 3e-4 * v[0]] if ncosts > 1 else []))
         try:
-            problem, alg, exc = run_algorithm(name, ctx, seed, N, G, n_params=nparams, n_costs=ncosts,
+            problem, alg, exc = run_algorithm(name, ctx, seed, N, G, n_params=nparams, n_costs=ncosts, f=fbig,
                                               bounds=[[0.0, 1.0], [-2.0, 2.0], [0.5, 1.5], [-1.0, 0.0]][:nparams], before=before, after=after,
                                               shim_cfg={"extreme_values": False}, g=g)
         finally:
@@ -197,7 +201,7 @@ def run_body_factory(name, N, G, nparams, ncosts, seed, fail_script=None, allow_
                     break
             if ncosts == 1:
                 best = [min(i.costs_signed[0] for i in pops[k]) for k in sorted(pops) if pops[k] and all(i.costs_signed for i in pops[k])]
-                if constraint in (None, "always") and any(b > a for a, b in zip(best, best[1:])):
+                if constraint in (None, "always", "bigcosts") and any(b > a for a, b in zip(best, best[1:])):
                     bad("C09:NSGAII:best-got-worse", "best signed cost per generation %r" % (best,))
         for ind in problem.individuals:
             if not ind.costs:
@@ -208,8 +212,55 @@ def run_body_factory(name, N, G, nparams, ncosts, seed, fail_script=None, allow_
     return body
 
 
+def check_two_algorithms(name1, N1, G1, name2, N2, G2, seed):
+    """Both algorithm objects are constructed and configured first, then run one after the other: each must keep its own
+    population size and generation count (options are per object)."""
+    from ..core import shim as shim_mod
+    from .c_support import make_problem, reset_ids, algorithm_class, std_objective
+    reset_ids()
+    out = []
+    made = []
+    for name, N, G in ((name1, N1, G1), (name2, N2, G2)):
+        cnt = {"ok": 0}
+        problem = make_problem(n_params=2, bounds=[[0.0, 1.0], [-2.0, 2.0]], criteria=["minimize", "minimize"], f=std_objective(2),
+                               after=(lambda c: (lambda problem, individual: c.__setitem__("ok", c["ok"] + 1)))(cnt))
+        alg = algorithm_class(name)(problem)
+        alg.options['max_population_number'] = G
+        alg.options['max_population_size'] = N
+        alg.options['verbose_level'] = 0
+        made.append((name, N, G, problem, alg, cnt))
+    sh = shim_mod.install()
+    for name, N, G, problem, alg, cnt in made:
+        sh.reset(seed, None)
+        try:
+            alg.run()
+        except Exception as e:
+            out.append(("C09:two-algorithms:exception:%s" % type(e).__name__, "%s raised %r" % (name, e)))
+            continue
+        pops = problem.populations()
+        first = 1 if name == "NSGAII" else 0
+        budget = N * G if name == "NSGAII" else N * (G + 1)
+        if sorted(pops) != list(range(first, G + 1)) or any(len(v) != N for v in pops.values()) or cnt["ok"] != budget:
+            out.append(("C09:two-algorithms:options-not-per-object:%s" % name,
+                        "%s configured with N=%d G=%d next to %s(N=%d, G=%d): generations %r sizes %r evaluations %d (budget %d)" % (
+                            name, N, G, name2 if name == name1 else name1, N2 if name == name1 else N1, G2 if name == name1 else G1,
+                            sorted(pops), sorted(set(len(v) for v in pops.values())), cnt["ok"], budget)))
+    return out
+
+
 def _shard(shard, col: Collector):
     kind = shard[0]
+    if kind == "two":
+        algs = ("NSGAII", "EpsMOEA", "OMOPSO", "SMPSO")
+        for a in algs:
+            for b in algs:
+                for (N1, G1, N2, G2) in ((2, 2, 3, 1), (3, 1, 2, 3), (4, 2, 2, 1)):
+                    col.case()
+                    col.nontrivial(("two", a, b, N1, G1, N2, G2))
+                    for key, msg in check_two_algorithms(a, N1, G1, b, N2, G2, shard[1]):
+                        col.violation(key, "two", msg, {"a": a, "b": b, "N1": N1, "G1": G1, "N2": N2, "G2": G2, "seed": shard[1]})
+        col.sample({"kind": "two algorithm objects configured before either runs", "first": ["NSGAII", 2, 2], "second": ["SMPSO", 3, 1]}, 1)
+        return
     if kind == "acc":
         _, n, fixed = shard
         for rest in itertools.product(ALPHA, repeat=n - len(fixed)):
@@ -257,6 +308,8 @@ def replay(sub, case):
         ctx, out = run_once(run_body_factory(case["name"], case["N"], case["G"], case["nparams"], case["ncosts"], case["seed"],
                                              constraint=case.get("constraint")), case["choices"])
         return out
+    if sub == "two":
+        return check_two_algorithms(case["a"], case["N1"], case["G1"], case["b"], case["N2"], case["G2"], case["seed"])
     if sub == "script":
         from ..core.explorer import Ctx
         return run_body_factory(case["name"], case["N"], case["G"], 2, 2, case["seed"], fail_script=set(case["script"]))(Ctx([]))
@@ -293,10 +346,11 @@ def run(tier, seed):
                         shards.append(("run", name, N2, G2, 2, 2, streams[0], 1 if tier == "thorough" else 0, part, 6))
                     shards.append(("run", name, N2, G2, 3, 1, streams[0], 0, 0, 1))
             if name in ("NSGAII", "EpsMOEA") and (N, G) in ((2, 2), (3, 3), (4, 3)):
-                for constraint in ("always", "half"):
+                for constraint in ("always", "half", "bigcosts"):
                     for (nparams, ncosts) in ((1, 1), (2, 2)):
                         nparts = 4 if N * G >= 8 else 1
                         for part in range(nparts):
                             shards.append(("run", name, N, G, nparams, ncosts, streams[0], 1, part, nparts, constraint))
+    shards.append(("two", seed))
     col = run_shards(_shard, shards)
     return col, {"exhaustive": col.counters.get("caps_hit", 0) == 0, "streams": streams}
